@@ -1676,6 +1676,18 @@ impl Arena {
 
 #[cfg(rarena_verif)]
 impl Arena {
+  /// Address of the header (sentinel word; `allocated`, `min_segment_size`, `discarded` follow at +8, +12, +16).
+  #[doc(hidden)]
+  pub fn verif_header_ptr(&self) -> *const u8 {
+    self.header() as *const _ as *const u8
+  }
+
+  /// Address of the reference counter.
+  #[doc(hidden)]
+  pub fn verif_refs_ptr(&self) -> *const u8 {
+    unsafe { self.inner.as_ref().refs() as *const _ as *const u8 }
+  }
+
   /// Raw view of the header and the free list (plain, unreported reads).
   #[doc(hidden)]
   pub fn verif_snapshot(&self, max: usize) -> crate::verif::Snapshot {
